@@ -1,5 +1,6 @@
 mod check;
 mod conv;
+mod cup;
 mod env;
 mod exec;
 mod hist;
@@ -68,6 +69,17 @@ fn cmd_check(id: &str, tier: &str) -> i32 {
     let batches = (def.batches)(tier);
     let budget = if tier == "thorough" { 1500 } else { 100 };
     let deadline = t0 + Duration::from_secs(std::env::var("VERIF_BUDGET_S").ok().and_then(|s| s.parse().ok()).unwrap_or(budget));
+    // watchdog: a run that never returns (deadlock in the harness or the code under test with
+    // the scheduler stuck) must not hang the check
+    let limit = deadline + Duration::from_secs(180);
+    let wd_id = id.to_string();
+    std::thread::spawn(move || loop {
+        std::thread::sleep(Duration::from_secs(1));
+        if Instant::now() > limit {
+            println!("HARNESS-ERROR {wd_id}: watchdog expired (a run did not return)");
+            std::process::exit(2);
+        }
+    });
     let agg = Mutex::new(check::Agg::default());
     for b in &batches {
         check::run_batch(seed, b, workers(), deadline, &agg);
